@@ -350,6 +350,7 @@ fn main() {
         ghost_structs: BTreeMap::new(),
         dropped_fields: BTreeMap::new(),
         unit_fns: BTreeSet::new(),
+        arc_fields: BTreeSet::new(),
     };
     let mut struct_items: Vec<(ItemStruct, &spec::StructSpec)> = vec![];
     for ss in u.structs.iter() {
@@ -367,6 +368,9 @@ fn main() {
                 }
                 if tname == "Mutex" || tname == "RwLock" {
                     t.mutex_fields.insert(fname.clone());
+                }
+                if tname == "Arc" {
+                    t.arc_fields.insert(fname.clone());
                 }
             }
         }
